@@ -23,7 +23,8 @@ ASSUMPTIONS = [
 ]
 SHARD_TIMEOUT = {"quick": 600, "thorough": 3000}
 
-KINDS = ["conn-close", "http10", "http10-te", "refused-400", "refused-431", "short", "short0", "nocl", "raise0", "raise1", "send-fault"]
+KINDS = ["conn-close", "http10", "http10-te", "refused-400", "refused-431", "short", "short0", "nocl", "raise0", "raise1", "send-fault",
+         "recv-fault", "continue-send-fault"]
 FOLLOW = ["one", "two", "partial", "garbage"]
 ARRIVAL = ["same", "next", "after-response", "delay", "during-execution"]
 
@@ -66,6 +67,13 @@ def build(kind, follow, arrival, lookahead, threads, poll, pre, sndbuf=4096):
         # close (will_close) while the request is still executing
         M = {"n": 3000, "k": "write", "w": 500}
         faults["0:send:%d" % (2 + len(pre))] = errno.ETIMEDOUT
+    elif kind == "continue-send-fault":
+        # the 100 Continue for M cannot be written (non-disconnect errno) while M's body is already
+        # there (same read): the connection is given up before M is complete
+        M = {"m": "POST", "body": 40, "expect": True, "n": 600, "k": "cl"}
+        faults["0:send:%d" % (1 if pre else 0)] = errno.ETIMEDOUT
+    elif kind == "recv-fault":
+        return build_recv_fault(follow, lookahead, threads, poll, sndbuf)
     reqs.append(M)
     after = []
     if follow == "one":
@@ -101,6 +109,28 @@ def build(kind, follow, arrival, lookahead, threads, poll, pre, sndbuf=4096):
     return scn
 
 
+def build_recv_fault(follow, lookahead, threads, poll, sndbuf):
+    """The only worker is occupied by another connection (gated request); the judged connection's
+    first request B is complete and queued; then a recv() on it fails with a non-disconnect errno:
+    the connection is given up while B has not started.  Nothing of it may be executed afterwards."""
+    from vf.sim import scenario as SC
+
+    adj = {"threads": 1, "channel_request_lookahead": max(1, lookahead), "asyncore_use_poll": poll, "send_bytes": 1}
+    reqs = [{"n": 10, "k": "cl"}, {"n": 20, "k": "cl"}]
+    if follow in ("partial", "garbage"):
+        reqs[1] = {"raw": "GET /r?c=0&i=1&n=5&k=cl&w=0 HTTP/1.1\r\nHost: h\r\nX-Par", "refused": False}
+    l0 = len(b"".join(SC.request_bytes(0, 0, reqs[0])))
+    total = sum(len(b"".join(SC.request_bytes(0, i, r))) for i, r in enumerate(reqs))
+    judged = {"requests": reqs, "sndbuf": sndbuf,
+              "plan": [[0, "any-app-waiting", 0], [l0, "sleep", 0.05], [l0, "open-all-gates", 0], [total, "yield", 1]]}
+    blocker = {"requests": [{"n": 30, "k": "cl", "gate": True}], "sndbuf": sndbuf, "delay": 0.01}
+    # the judged client waits until the blocker occupies the worker, sends B, lets the server queue it,
+    # then releases the blocker and sends on at once: the failing second recv and the worker's
+    # next steps (finish the blocker, start B) race
+    return {"adj": adj, "sndbuf": sndbuf, "conns": [judged, blocker], "faults": {"0:recv:1": errno.ETIMEDOUT},
+            "m_index": -1, "kind": "recv-fault"}
+
+
 def gen_scenario(rng):
     kind = rng.choice(KINDS)
     follow = rng.choice(FOLLOW)
@@ -109,8 +139,12 @@ def gen_scenario(rng):
     pre = []
     for _ in range(rng.choice([0, 0, 1, 2])):
         pre.append({"n": rng.choice([5, 300, 5000]), "k": rng.choice(["cl", "write", "gen"]), "w": 512})
-    if kind == "send-fault" and len(pre) > 1:
+    if kind in ("send-fault", "continue-send-fault") and len(pre) > 1:
         pre = pre[:1]
+    if kind == "continue-send-fault":
+        pre = []
+        if arrival not in ("same", "next"):
+            arrival = "same"
     scn = build(kind, follow, arrival, lookahead, rng.choice([1, 1, 2]), rng.random() < 0.4, pre,
                 sndbuf=rng.choice([512, 4096]))
     if kind == "send-fault":
@@ -123,7 +157,7 @@ def gen_scenario(rng):
 
 def directed():
     out = []
-    for kind in ("conn-close", "refused-400", "raise0", "short", "send-fault", "short0", "http10-te"):
+    for kind in ("conn-close", "refused-400", "raise0", "short", "send-fault", "short0", "http10-te", "continue-send-fault", "recv-fault"):
         for la in (0, 2):
             s = build(kind, "two", "next", la, 1, False, [{"n": 50, "k": "cl"}], sndbuf=512)
             s["follow"], s["arrival"] = "two", "next"
@@ -153,7 +187,7 @@ def plan(tier, seed):
         specs.append({"mode": "random", "seed": seed * 1021 + i, "n": per})
     ds = directed()
     if tier == "quick":
-        ds = [ds[0], ds[1], ds[3], ds[5], ds[9], ds[11], ds[13], ds[14], ds[15], ds[16], ds[19]]
+        ds = [ds[0], ds[1], ds[3], ds[5], ds[9], ds[11], ds[13], ds[15], ds[17], ds[18], ds[19], ds[20], ds[23]]
     parts = 4
     for scn in ds:
         for p in range(parts):
@@ -204,13 +238,42 @@ def install_probe():
     def service(self):
         w = shim.W()
         nreq = len(self.requests)
+        conn = getattr(getattr(self, "socket", None), "conn", None)
+        if w is not None:
+            # the step at which a worker commits to the next request of this channel
+            w.__dict__.setdefault("c11_service_starts", {}).setdefault(getattr(conn, "cid", id(self)), []).append(w.sched.steps)
+            if conn is not None:
+                w.__dict__.setdefault("c11_chan_cid", {})[id(self)] = conn.cid
         r = orig_service(self)
         if w is not None and (self.close_when_flushed or self.will_close) and nreq > 1 and not self.requests:
             w.count("queued-requests-discarded")
         return r
 
+    class Flag:
+        """data descriptor on a channel flag: remembers the step at which the flag first takes the
+        value that means 'this connection is given up' (observation only)"""
+
+        def __init__(self, name, default, closing_value):
+            self.name, self.default, self.closing = "_vf_" + name, default, closing_value
+
+        def __get__(self, obj, typ=None):
+            if obj is None:
+                return self.default
+            return obj.__dict__.get(self.name, self.default)
+
+        def __set__(self, obj, val):
+            obj.__dict__[self.name] = val
+            if val == self.closing:
+                w = shim.W()
+                conn = getattr(getattr(obj, "socket", None), "conn", None)
+                if w is not None and conn is not None:
+                    w.__dict__.setdefault("c11_decision", {}).setdefault(conn.cid, w.sched.steps)
+
     ch.HTTPChannel.received = received
     ch.HTTPChannel.service = service
+    ch.HTTPChannel.will_close = Flag("will_close", False, True)
+    ch.HTTPChannel.close_when_flushed = Flag("close_when_flushed", False, True)
+    ch.HTTPChannel.connected = Flag("connected", False, False)
     _probe = True
 
 
@@ -235,6 +298,24 @@ def judge(scn, o):
         late = [i for step, i in entered if step > fstep and i > m]
         if not [1 for step, i in entered if i == m]:
             return out
+    if kind in ("recv-fault", "continue-send-fault"):
+        # a client fault on the I/O thread: whatever of this connection STARTS after the server has
+        # given the connection up (a closing flag set / connected cleared -- not the failing call
+        # itself, a few steps earlier) is late, the message that was being received included
+        if getattr(w, "fault_step", None) is None:
+            return out
+        fstep = getattr(w, "c11_decision", {}).get(cid)
+        if fstep is None:
+            return out
+        # a request "starts" when a worker enters service() for it (where the server tests the
+        # connection), not when the application's first line runs: a worker that had passed that test
+        # before the decision legitimately goes on (the client may vanish at any time)
+        starts = sorted(getattr(w, "c11_service_starts", {}).get(cid, []))
+        late = []
+        for step, i in entered:
+            began = max([x for x in starts if x <= step], default=None)
+            if began is not None and began > fstep and i >= max(m, 0):
+                late.append(i)
     if late:
         out.append(("executed-after-close:" + kind,
                     f"requests {late} executed after the closing message {m} ({kind}); executions {idxs}"))
